@@ -78,7 +78,7 @@ Adopt(s, st) ==
                          ELSE [m |-> <<x[2], x[3]>>, dl |-> x[4], lo |-> x[4], hi |-> x[4] + Slack, md |-> FALSE]]]
 
 \* Guards on the (adopted) state of one subscription after a turn.
-SubStateGuards(post, st) ==
+SubStateGuards0(post, st) ==
     LET s == Adopt(post, st) IN
     { G("DRIFT", st.backlog = post.queue),
       G("DRIFT", LeaseSetOfLog(st) = LeaseSetOfModel(post)),
@@ -96,10 +96,6 @@ SubStateGuards(post, st) ==
       \* an outstanding delivery does not vanish: it stays outstanding, is acknowledged, or is back
       \* in the backlog for redelivery (C04: "becomes available for redelivery")
       G("C04", s.st = "live" => \A m \in LeasedMsgs(post) : m \in SeqSet(s.queue) \/ m \in LeasedMsgs(s) \/ m \in s.acked),
-      \* ... and a lease ends only by what the turn is about (`post` is the model after the turn's
-      \* acknowledgements, nacks or expiries): a delivery that is back in the backlog although nobody
-      \* nacked it and its deadline has not been reached is "available for redelivery" too early
-      G("C04", s.st = "live" => DOMAIN post.lease \subseteq DOMAIN s.lease),
       G("C01", SeqSet(s.queue) \cup LeasedMsgs(s) \subseteq s.posted),
       G("C02", s.acked \cap (SeqSet(s.queue) \cup LeasedMsgs(s)) = {}),
       G("C03", \A a, b \in DOMAIN s.lease : a # b => s.lease[a].m # s.lease[b].m),
@@ -110,6 +106,18 @@ SubStateGuards(post, st) ==
       G("C02,C03", NoDup(s.queue)),
       G("C03", DOMAIN s.lease \subseteq s.used),
       G("C11", s.st = "deleted" => (s.queue = <<>> /\ s.lease = Empty)) }
+
+\* A lease ends only by what the turn is about (`post` is the model after the turn's
+\* acknowledgements, nacks or expiries) - or because its deadline has been reached: an
+\* implementation may expire overdue deliveries in ANY turn (a turn composed with an expiry; whether
+\* the consumers are woken then is C06's business, judged at the next moment of rest).  A delivery
+\* that is back in the backlog although nobody nacked it and its deadline has not been reached is
+\* "available for redelivery" too early (C04).
+LeaseKept(post, st, t) ==
+    { G("C04", (post.st = "live" /\ ~st.deleted) =>
+                  \A a \in DOMAIN post.lease :
+                      (\E x \in SeqSet(st.lease) : x[1] = a) \/ t >= post.lease[a].lo - Early) }
+SubStateGuards(post, st, t) == SubStateGuards0(post, st) \cup LeaseKept(post, st, t)
 
 Fatal(gs) == Failed(gs) \ {"DRIFT"}
 
@@ -633,7 +641,7 @@ EvGuards(e) ==
                                = SelectSeq(S[e.si].queue, LAMBDA m : m \notin S[e.si].seen) \o e.ids) }
              ELSE {}) \cup
             (IF SiKnown(e) /\ (e.ids = <<>> \/ S[e.si].inbox # <<>>)
-             THEN SubStateGuards(IF e.ids = <<>> THEN S[e.si] ELSE SubAfterPost(S[e.si], e.ids), e.st) ELSE {})
+             THEN SubStateGuards(IF e.ids = <<>> THEN S[e.si] ELSE SubAfterPost(S[e.si], e.ids), e.st, e.t) ELSE {})
       [] e.k = "s.pull" ->
             \* messages are handed out on behalf of SOMEBODY: a consumer whose call is pending, or one
             \* that was abandoned so recently that the server may not know yet (since the last moment
@@ -652,25 +660,25 @@ EvGuards(e) ==
             SubPull_G(e.si, e.max, e.out, e.st.backlog, e.t,
                       SiKnown(e) /\ \E g \in gone : g.op \in {"Pull", "StreamOpen"} /\ g.sub = S[e.si].name, Early) \cup
             (IF SiKnown(e)
-             THEN SubStateGuards(IF S[e.si].st = "live" THEN SubAfterPull(S[e.si], e.out, e.st.backlog, e.t) ELSE S[e.si], e.st)
+             THEN SubStateGuards(IF S[e.si].st = "live" THEN SubAfterPull(S[e.si], e.out, e.st.backlog, e.t) ELSE S[e.si], e.st, e.t)
              ELSE {})
       [] e.k = "s.ack" ->
             SubAck_G(e.si, SeqSet(e.acks)) \cup PushAckGuards(e) \cup
             (IF SiKnown(e)
-             THEN SubStateGuards(IF S[e.si].st = "live" THEN SubAfterAck(S[e.si], SeqSet(e.acks)) ELSE S[e.si], e.st)
+             THEN SubStateGuards(IF S[e.si].st = "live" THEN SubAfterAck(S[e.si], SeqSet(e.acks)) ELSE S[e.si], e.st, e.t)
              ELSE {})
       [] e.k = "s.mod" ->
             IF ~SiKnown(e) THEN { G("BIND", FALSE) } ELSE
             LET mods == ModsOf(e.si, e) IN
             SubModify_G(e.si, mods, e.st.backlog, Early) \cup ModCallGuards(e.si, e) \cup PushNackGuards(e) \cup
             SubStateGuards(IF S[e.si].st = "live"
-                           THEN [SubAfterMods(S[e.si], mods) EXCEPT !.queue = e.st.backlog] ELSE S[e.si], e.st)
+                           THEN [SubAfterMods(S[e.si], mods) EXCEPT !.queue = e.st.backlog] ELSE S[e.si], e.st, e.t)
       [] e.k = "s.expire" ->
             SubExpire_G(e.si, e.acks, e.st.backlog, JudgeLate, e.t, Early) \cup
             (IF SiKnown(e) /\ S[e.si].st = "live" /\ SeqSet(e.acks) \subseteq DOMAIN S[e.si].lease
-             THEN SubStateGuards([SubAfterExpire(S[e.si], e.acks) EXCEPT !.queue = e.st.backlog], e.st) ELSE {})
+             THEN SubStateGuards([SubAfterExpire(S[e.si], e.acks) EXCEPT !.queue = e.st.backlog], e.st, e.t) ELSE {})
       [] e.k = "s.stats" ->
-            IF SiKnown(e) THEN SubStateGuards(S[e.si], e.st) ELSE { G("BIND", FALSE) }
+            IF SiKnown(e) THEN SubStateGuards(S[e.si], e.st, e.t) ELSE { G("BIND", FALSE) }
       [] e.k \in {"s.del0", "s.del1", "s.exit"} -> { G("BIND", SiKnown(e)) }
       \* the actor's Delete handler returns: a deletion that began is carried through - it does not
       \* fail and leave the subscription half deleted (registered under its name, serving nothing)
